@@ -259,15 +259,41 @@ Proof.
     first [left; reflexivity | right; eexists; split; [reflexivity|reflexivity]].
 Qed.
 
+(* the context of t's call ends while t waits for a lock: the call returns an error (no obligation), nothing is written *)
+Lemma inv6_giveup_self : forall progs s t s',
+  TI progs t (thrs s t) (wire s) -> step s (EGiveUp t) = Some s' -> TI progs t (thrs s' t) (wire s').
+Proof.
+  intros progs s t s' T H.
+  unfold step in H. cbv zeta in H.
+  destruct (ph (thrs s t)) as [|k parts|fk k parts fi|fk k parts fi|fk k parts fi p|fk k parts fi|fk k| | | ] eqn:Hph;
+    try discriminate H.
+  - (* WantMsg *)
+    injection H as <-. unfold with_thr. proj. rewrite upd_same. fin_ret. discriminate.
+  - (* WantFrame *)
+    destruct fk; try discriminate H.
+    + destruct ((k =? 0) && (fi =? 0)); injection H as <-; unfold with_thr; proj; rewrite upd_same; fin_ret; discriminate.
+    + injection H as <-. unfold with_thr. proj. rewrite upd_same. fin_ret. discriminate.
+Qed.
+
+Lemma giveup_frame : forall s t s', step s (EGiveUp t) = Some s' ->
+  (forall t0, t0 <> t -> thrs s' t0 = thrs s t0) /\ wire s' = wire s.
+Proof.
+  intros s t s' H.
+  step_cases H; proj; (split; [intros t0 N; apply upd_other; exact N|reflexivity]).
+Qed.
+
 Lemma inv6_step : forall progs s e s', Inv6 progs s -> step s e = Some s' -> Inv6 progs s'.
 Proof.
-  intros progs s e s' I H. destruct e as [t alt|].
+  intros progs s e s' I H. destruct e as [t alt| |t].
   2:{ unfold step in H. destruct (closed s); [discriminate H|]. injection H as <-. exact I. }
-  intros t0. destruct (Nat.eq_dec t0 t) as [->|N].
-  - eapply inv6_step_self; eauto.
-  - destruct (step_frame _ _ _ _ H) as [A [B|[x [B Bt]]]]; rewrite (A t0 N), B.
-    + apply I.
-    + apply TI_other; [apply I|congruence].
+  - intros t0. destruct (Nat.eq_dec t0 t) as [->|N].
+    + eapply inv6_step_self; eauto.
+    + destruct (step_frame _ _ _ _ H) as [A [B|[x [B Bt]]]]; rewrite (A t0 N), B.
+      * apply I.
+      * apply TI_other; [apply I|congruence].
+  - intros t0. destruct (Nat.eq_dec t0 t) as [->|N].
+    + eapply inv6_giveup_self; eauto.
+    + destruct (giveup_frame _ _ _ H) as [A B]. rewrite (A t0 N), B. apply I.
 Qed.
 
 Lemma inv6_run : forall progs sched s, Inv6 progs s -> Inv6 progs (run s sched).
